@@ -159,6 +159,9 @@ func (i *ICMPv6Echo) DecodeFromBytes(data []byte, df gopacket.DecodeFeedback) er
 	}
 	i.Identifier = binary.BigEndian.Uint16(data[0:2])
 	i.SeqNumber = binary.BigEndian.Uint16(data[2:4])
+	// without contents and payload the echo data is never decoded (or
+	// re-serialized) although NextLayerType announces a payload
+	i.BaseLayer = BaseLayer{data[:4], data[4:]}
 
 	return nil
 }
